@@ -16,6 +16,7 @@ import Driver.StartupOps
 import Driver.ListingOps
 import Driver.NumParseOps
 import Driver.MemViewOps
+import Driver.UIOps
 /-
 Registry of all operation handlers of the model driver.  One line per component.
 -/
@@ -39,6 +40,7 @@ def allHandlers : List (String × Handler) :=
   startupHandlers ++
   listingHandlers ++
   numParseHandlers ++
-  memViewHandlers
+  memViewHandlers ++
+  uiHandlers
 
 end Driver
